@@ -1,19 +1,25 @@
+/* real liblsd/hostlist.c behind a line protocol (one op per line, one answer per line):
+   C <str> | P <name> | S | U | F <name> | N <idx> | D <name> | R | E | T | K */
 #include <stdio.h>
 #include <stdlib.h>
 #include <string.h>
 #include "hostlist.h"
-/* ops from stdin: one per line.  C <str> | P <str> | S | U | F <name> | N <idx> | D <name> | R | E | K */
+#include "error.h"
 static char *ranged(hostlist_t hl){ int sz=256; char*b=malloc(sz); while(hostlist_ranged_string(hl,sz,b)<0){sz*=2;b=realloc(b,sz);} return b; }
-int main(){ char line[1<<16]; hostlist_t hl=hostlist_create(NULL);
+static void expand(const char *tag, hostlist_t hl){ hostlist_iterator_t it=hostlist_iterator_create(hl); char*h; printf("%s",tag); while((h=hostlist_next(it))){printf(" %s",h);free(h);} printf("\n"); hostlist_iterator_destroy(it); }
+int main(){ static char line[1<<18]; err_init("u_hostlist"); hostlist_t hl=hostlist_create(NULL);
  while(fgets(line,sizeof line,stdin)){ line[strcspn(line,"\n")]=0; char op=line[0]; char*arg=line+2;
   if(op=='C'){ hostlist_destroy(hl); hl=hostlist_create(arg); if(!hl){printf("C NULL\n"); hl=hostlist_create(NULL);} else printf("C ok %d\n",hostlist_count(hl)); }
   else if(op=='P'){ int n=hostlist_push(hl,arg); printf("P %d %d\n",n,hostlist_count(hl)); }
   else if(op=='S'){ hostlist_sort(hl); printf("S %d\n",hostlist_count(hl)); }
   else if(op=='U'){ hostlist_uniq(hl); printf("U %d\n",hostlist_count(hl)); }
   else if(op=='F'){ printf("F %d\n",hostlist_find(hl,arg)); }
-  else if(op=='N'){ char*h=hostlist_nth(hl,atoi(arg)); printf("N %s\n",h?h:"(null)"); free(h);} 
+  else if(op=='N'){ char*h=hostlist_nth(hl,atoi(arg)); printf("N %s\n",h?h:"(null)"); free(h);}
   else if(op=='D'){ int r=hostlist_delete_host(hl,arg); printf("D %d %d\n",r,hostlist_count(hl)); }
-  else if(op=='R'){ char*b=ranged(hl); printf("R %s\n",b); free(b);} 
-  else if(op=='E'){ hostlist_iterator_t it=hostlist_iterator_create(hl); char*h; printf("E"); while((h=hostlist_next(it))){printf(" %s",h);free(h);} printf("\n"); hostlist_iterator_destroy(it);} 
+  else if(op=='R'){ char*b=ranged(hl); printf("R %s\n",b); free(b);}
+  else if(op=='E'){ expand("E", hl); }
+  else if(op=='T'){ char*b=ranged(hl); hostlist_t h2=hostlist_create(b); if(!h2) printf("T NULL\n"); else { expand("T", h2); hostlist_destroy(h2);} free(b); }
+  else if(op=='K'){ printf("K\n"); }
+  else printf("bad-op\n");
   fflush(stdout);
  } return 0; }
